@@ -8,9 +8,22 @@
    tenth decimal of a, and it never becomes positive, so the text always has the shape
    "-digits.digits" that argparse takes as a negative number, not as an option.
    Non-negative numbers are printed with str(a) (shortest round-trip repr: float(str(a)) == a is
-   a property of CPython's float formatting, tested, not modelled). *)
-From Coq Require Import ZArith.
-From Demes Require Import Model.FloatStr.
+   a property of CPython's float formatting, tested, not modelled).
+   First clause, for migration rates (Proofs/MsRoundTrip.v, a composition of to_ms_rates and
+   from_ms_rates): C09_ms_at_scaled — dividing every event time by 4*N0 does not change which events
+   the ms semantics has applied at the corresponding time (DivMono: the division preserves the order
+   of the times involved), and the command to_ms emits is accepted by the semantics;
+   C09_ms_round_trip_rates — for a valid graph g in generations, h = from_ms(to_ms(g)) has, between the
+   corresponding demes and at the corresponding time, exactly one migration in force when g has one
+   with a scaled rate float(4*N0*r) that is not numerically zero, with rate y/(4*N0) for a y
+   numerically equal to float(4*N0*r), and none otherwise.  The arithmetic hypotheses are collected
+   in RoundTripArith (each holds in exact arithmetic; x*1 = x and "x/k is a number" are proved for
+   binary64 in Proofs/NumFArith.v). *)
+From Coq Require Import ZArith Bool List String QArith Arith.
+From Demes Require Import Base.Num Base.Py Model.MDM Model.InGen Model.MsOpt Model.ToMs Model.FromMs
+  Model.FloatStr Spec.Valid Spec.MsSem Proofs.MsRates Proofs.FromMsRefine Proofs.FromMsHistory
+  Proofs.FromMsRates Proofs.MsRoundTrip.
+Import ListNotations.
 Local Open Scope Z_scope.
 
 Theorem C09_fixed10_error n d :
@@ -20,5 +33,44 @@ Proof. exact (fixed10_error n d). Qed.
 Theorem C09_fixed10_stays_nonpositive n d : 0 < d -> n < 0 -> fixed10 n d <= 0.
 Proof. exact (fixed10_nonpos n d). Qed.
 
+
+Local Close Scope Z_scope.
+Local Open Scope string_scope.
+Local Open Scope list_scope.
+Local Open Scope nat_scope.
+Section C09.
+  Context {N : NumOps} {L : NumLaws N}.
+
+  Theorem C09_ms_at_scaled g0 g N0 n evs T :
+    in_generations g0 = Ok g -> Valid g -> to_ms_unscaled g0 N0 = Ok (n, evs) ->
+    ok T -> DivMono N0 (T :: map ev_time evs) ->
+    exists st st',
+      ms_at (mkCmd n true n0 [] (map (sc_ev N0) evs)) (dv N0 T) = Ok st' /\
+      ms_at (mkCmd n true n0 [] evs) T = Ok st /\ SameMig st st' /\ Sq st /\ n <= npops st.
+  Proof. exact (ms_at_scaled g0 g N0 n evs T). Qed.
+
+  Theorem C09_ms_round_trip_rates g0 g N0 n evs evs' h T i j di dj :
+    in_generations g0 = Ok g -> Valid g ->
+    to_ms_unscaled g0 N0 = Ok (n, evs) ->
+    to_ms_events g0 N0 = Ok (n, evs') ->
+    RoundTripArith N0 T (map ev_time evs) (map m_rate (g_migs g)) ->
+    build_graph (mkCmd n true n0 [] evs') N0 = Ok h ->
+    nth_error (g_demes g) i = Some di -> nth_error (g_demes g) j = Some dj -> i <> j ->
+    ok T -> nle n0 T = true ->
+    nlt T (d_start di) = true -> nlt T (d_start dj) = true ->
+    let T' := dv N0 T in
+    let back := gmigs_in_force h (deme_name (S j)) (deme_name (S i)) (scale N0 T') in
+    match active_mig g (d_name dj) (d_name di) T with
+    | Some m =>
+        let x := nfloat (nmul (nmul n4 N0) (m_rate m)) in
+        if neqb x n0 then back = []
+        else exists m' y, back = [m'] /\ neqb y x = true /\ m_rate m' = ndiv y (nmul n4 N0)
+    | None => back = []
+    end.
+  Proof. exact (ms_round_trip_rates g0 g N0 n evs evs' h T i j di dj). Qed.
+End C09.
+
 Print Assumptions C09_fixed10_error.
 Print Assumptions C09_fixed10_stays_nonpositive.
+Print Assumptions C09_ms_at_scaled.
+Print Assumptions C09_ms_round_trip_rates.
